@@ -229,9 +229,42 @@ func listenerStack(r *R) {
 	r.check(n > 0 && len(why) == 0, "Listener.Listen#wrappers", fn.Pos(), "every configured wrapper is in the stack that is kept", strings.Join(dedupStrings(why), "; "))
 	// and the PROXY wrapper sits directly on the socket (it must see the first bytes)
 	okInner := false
+	// the raw socket: the first result of the module function that opens it (reaches net.ListenConfig.Listen),
+	// whatever it is called and however it is given the address
+	var sockets []string
+	eachInstr(fn, func(ins ssa.Instruction) {
+		c, ok := ins.(*ssa.Call)
+		if !ok {
+			return
+		}
+		g := staticCallee(c.Common())
+		if g == nil || !inModule(g) || isNewHelper(g) && false {
+			return
+		}
+		opens := false
+		eachInstr(g, func(gi ssa.Instruction) {
+			if gc, ok := gi.(*ssa.Call); ok && calleeName(gc.Common()) == "(*net.ListenConfig).Listen" {
+				opens = true
+			}
+		})
+		if opens {
+			sockets = append(sockets, describe(c)+"#0")
+		}
+	})
+	isSocket := func(v string) bool {
+		if strings.HasPrefix(v, "(*net.ListenConfig).Listen(") && strings.HasSuffix(v, "#0") {
+			return true // opened right here (the opener is a helper walked in place)
+		}
+		for _, s := range sockets {
+			if strings.Contains(v, s) {
+				return true
+			}
+		}
+		return false
+	}
 	for _, p := range ps {
 		for k, v := range p.Mem {
-			if strings.HasPrefix(k, "local:") && strings.HasSuffix(k, ".Listener") && strings.Contains(v, "listen($0)#0") {
+			if strings.HasPrefix(k, "local:") && strings.HasSuffix(k, ".Listener") && isSocket(v) {
 				if _, has := p.Mem[strings.TrimSuffix(k, ".Listener")+".ReadHeaderTimeout"]; has {
 					okInner = true
 				}
